@@ -50,6 +50,7 @@ func NewEngine(prog *Program, cs *ContractSet) *Engine {
 	}
 	e.resolveContracts()
 	e.findConstGlobals()
+	e.checkTypeInvs()
 	return e
 }
 
